@@ -421,32 +421,8 @@ def run(ctx):
     # ---------------------------------------------------------------- committer threads on a DemoStorage
     # (tpc_begin / tpc_finish of two or three threads interleaved by the cooperative scheduler; serial equivalent
     #  = the commits in the order they returned, evaluated by TLC over ZStorage: the layers read as ONE database)
-    from ..drivers import commitconc, scripts as sc, storage as sd
-    rng = random.Random(seed * 23 + 5)
-    cjobs = []
-    for i in range(60 if q else 2400):
-        kind = ('demo', 'demo-base', 'demo-file')[i % 3]
-        cjobs.append((kind, [rng.randint(1, 3) for _ in range(rng.choice((2, 2, 3)))], seed * 9000 + i,
-                      os.path.join(ctx.scratch, 'cc-%d' % i), {'stick': (0.2, 0.5, 0.8)[(i // 3) % 3]}))
-    cres = par.pmap(commitconc.run, cjobs, chunksize=4)
-    cgood = []
-    for r in cres:
-        if r['outcome'] != 'ok':
-            ctx.violation({'kind': 'commit-sched', 'what': r['outcome'], 'storage': r['kind']},
-                          '%s: scheduler outcome %s (seed %d)' % (r['kind'], r['outcome'], r['seed']), replay=r)
-        for th, err in r['errors'].items():
-            ctx.violation({'kind': 'commit-sched', 'what': 'thread-error', 'storage': r['kind'], 'error': err.split(':')[0]},
-                          '%s: thread %s raised %s (seed %d)' % (r['kind'], th, err, r['seed']), replay=r)
-        if r['outcome'] == 'ok' and not r['errors']:
-            cgood.append(r)
-    cmap = sd.consts('mapping', NOid=6, MaxTxn=20, MaxRecs=5, MaxClock=8, AtomVals=('v1', 'v2'), RefSets='NoRefs', Cls='MCClsPlain')
-    cbeh = sc.evaluate(ctx, 'cc-demo', [commitconc.script_for(r) for r in cgood], cmap) if cgood else []
-    for r, beh in zip(cgood, cbeh):
-        for sig, desc in commitconc.judge(r, beh):
-            ctx.violation(sig, '%s (seed %d)' % (desc, r['seed']), replay={'kind': r['kind'], 'seed': r['seed'], 'order': r['finish_order']})
-    sched_cov = {'run': len(cres), 'judged': len(cgood), 'with_3_switches': sum(1 for r in cgood if r.get('switches', 0) >= 3)}
-    if not ctx.violations and sched_cov['with_3_switches'] < len(cres) // 3:
-        raise RuntimeError('vacuous run: committer schedules hardly interleave (%r)' % sched_cov)
+    from ..drivers import commitconc
+    sched_cov = commitconc.explore(ctx, ('demo', 'demo-base', 'demo-file'), 60 if q else 2400, 'ccd')
 
     ev = len(items)
     sample = next((r for (s, f, b, cb, c, r) in items if f == 'seam' and r['demo_txns'] >= 3), items[0][5])
